@@ -63,6 +63,9 @@ type Env struct {
 	usedTags   map[string]bool
 	// renamed-local recovery: loop-carried values not referred to by name in the invariants
 	spare []tv
+	// this environment binds locals of the function under contract (loop invariants, site contracts): the types of the names
+	// it resolves are recorded, and a missing name may be re-bound by type
+	ownLocals bool
 }
 
 func (e *Env) child() *Env {
@@ -375,6 +378,11 @@ func (e *Env) bin(n *EBin) (tv, error) {
 
 func (e *Env) ident(name string) (tv, error) {
 	if v, ok := e.vars[name]; ok {
+		e.recordName(name, v)
+		return v, nil
+	}
+	// a name that was a local of this function on the pinned tree: look for the renamed local before anything global
+	if v, ok := e.rebindByType(name); ok {
 		return v, nil
 	}
 	// ghost variable
@@ -428,6 +436,48 @@ func (e *Env) ident(name string) (tv, error) {
 		}
 	}
 	return tv{}, fmt.Errorf("unknown identifier %q", name)
+}
+
+// recordName notes the Go type of a local that a contract names (kept in baseline/names.json when baselines are updated).
+func (e *Env) recordName(name string, v tv) {
+	if !e.ownLocals || e.g == nil || e.g.fn == nil || v.ty == nil || v.ty.Kind != "go" || v.ty.Go == nil || e.eng.seenNames == nil {
+		return
+	}
+	fn := e.g.rootFn().String()
+	if e.eng.seenNames[fn] == nil {
+		e.eng.seenNames[fn] = map[string]string{}
+	}
+	e.eng.seenNames[fn][name] = types.TypeString(v.ty.Go, nil)
+}
+
+// rebindByType: the contract names a local that no longer exists under that name.  If the pinned tree recorded its Go type
+// and exactly one visible local that no clause of the contract names has that type, it is the renamed one.
+func (e *Env) rebindByType(name string) (tv, bool) {
+	if !e.ownLocals || e.g == nil || e.g.fn == nil || e.eng.nameTypes == nil {
+		return tv{}, false
+	}
+	want := e.eng.nameTypes[e.g.rootFn().String()][name]
+	if want == "" {
+		return tv{}, false
+	}
+	used := e.g.contractIdents()
+	var cand []string
+	for n, v := range e.vars {
+		if used[n] || v.ty == nil || v.ty.Kind != "go" || v.ty.Go == nil {
+			continue
+		}
+		if strings.HasPrefix(n, "arg") || n == "iter" || strings.HasPrefix(n, "iter") || n == "result" || strings.HasPrefix(n, "result") || n == "err" || n == "visited" || n == "ranged" {
+			continue
+		}
+		if types.TypeString(v.ty.Go, nil) == want {
+			cand = append(cand, n)
+		}
+	}
+	if len(cand) != 1 {
+		return tv{}, false
+	}
+	e.g.notes = append(e.g.notes, fmt.Sprintf("contract identifier %q re-bound to the renamed local %q (the only unnamed local of type %s)", name, cand[0], want))
+	return e.vars[cand[0]], true
 }
 
 func (e *Env) withPkg(path string) *Env {
@@ -1071,6 +1121,9 @@ func (g *Gen) baseEnv(st *State) *Env {
 		ref := g.val[fv]
 		e.vars[fv.Name()] = tv{t: e.load(ref, et, ""), ty: goT(et), ref: ref}
 	}
+	if len(g.fn.FreeVars) > 0 {
+		e.ownLocals = true // a closure's contract names captured locals of the enclosing function
+	}
 	return e
 }
 
@@ -1142,6 +1195,7 @@ func bindResults(e *Env, sig *types.Signature, results []string) {
 // loopEnv: names visible in a loop invariant.
 func (g *Gen) loopEnv(li *loopInfo, st *State, phiVals map[*ssa.Phi]string) *Env {
 	e := g.baseEnv(st)
+	e.ownLocals = true
 	g.addLets(e)
 	h := li.header
 	// locals via DebugRef whose value dominates the header
